@@ -11,7 +11,7 @@ TECHNIQUE = "deterministic simulation; every status change recorded at BaseOrder
 BUDGET = {"quick": {"runs": 10000, "wall": 45}, "thorough": {"runs": 500000, "wall": 900}}
 RULE = "one evaluation = one seeded backtest: requests (incl. illegal ones) issued at random instants relative to fills, suspension lapses, removals, in-play turns and closure with latencies drawn so that responses land before/after the market event; non-trivial = an illegal request was attempted or a response was applied after the order had completed for another reason; distinct = distinct scenario digests"
 ASSUMPTIONS = [
-    "4% of the evaluations are a second directed live family (asynchronous place whose every attempt fails in transport after the exchange took it, the order stream acknowledging the bets during the back-off and the strategy sending a cancel / update / replace meanwhile): the exhausted-retries recovery of the PLACE package must leave an order alone whose own modification is outstanding (judged only while reset_orders is on the stack)",
+    "4% of the evaluations (index % 25 == 7) are a second directed live family (asynchronous place whose every attempt fails in transport after the exchange took it, the order stream acknowledging the bets during the back-off and the strategy sending a cancel / update / replace meanwhile): the exhausted-retries recovery of the PLACE package must leave an order alone whose own modification is outstanding (judged only while reset_orders is on the stack)",
     "5% of the evaluations are a directed live family (two-instruction cancel with one report missing, then two requests in flight at once); an in-flight order may only leave its in-flight status on a thread that applies the reply of a package containing it, or through the order stream",
     "70% World A backtests (simulated exchange), 22% World B live Betfair sessions against the exchange double (legitimate replies and injected API faults, no restarts), 8% World B sessions with BetdaqOrder through a method-level Betdaq API stub (a successful Betdaq update stays UPDATING until the next poll, as the code documents)",
     "observation points: every status change, every request, every package and its execution, end of every update",
@@ -23,6 +23,12 @@ MONITORS = [LedgerMonitor, LifecycleMonitor, RejectionMonitor]
 
 
 def generate(rng, i, tier):
+    if i % 25 == 7:
+        # second directed family (round 21); chosen by the evaluation index so that the scenarios of all other evaluations
+        # are the ones generated before the family existed
+        from .. import livegen
+
+        return livegen.gen_c03_async_retry_overlap(rng)
     if rng.random() < 0.08:
         # World B with a Betdaq client (BetdaqOrder / BetdaqOrderPackage / BetdaqExecution, API stubbed at method level)
         from .. import livegen
@@ -32,10 +38,6 @@ def generate(rng, i, tier):
         from .. import livegen
 
         return livegen.gen_c03_overlap(rng)
-    if rng.random() < 0.04:
-        from .. import livegen
-
-        return livegen.gen_c03_async_retry_overlap(rng)
     if rng.random() < 0.25:
         from .. import livegen
 
